@@ -161,8 +161,8 @@ PROPS = {
                      "Luau types: the arms of format_type_info_internal that build arrays, callbacks, generics, tables, typeof and module types are behind one wrapper without contract (the types nested in them are formatted by calls the unit does not follow); "
                      "the list formatter of the types inside parentheses takes a closure that recurses: its result is assumed to have as many types as its input"],
         assumptions=["leaf formatters return the same leaf (var_id, call_id, table_id, ... postconditions on stubs)",
-                     "the trivia updaters (update_leading_trivia / update_trailing_trivia / update_trivia) are assumed interfaces in every unit but `trivia` (prelude/traits.rs); unit trivia verifies the real implementations for TokenReference, the blanket impls, Punctuated, ContainedSpan, BinOp, UnOp, Expression, Prefix, Suffix, Call, Index, MethodCall, FunctionArgs, FunctionBody, Parameter, If, Assignment, Return, Stmt, LastStmt "
-                     "and proves the assumed clauses for TokenReference / ContainedSpan / BinOp from them; the implementations for Var, VarExpression, FunctionCall, TableConstructor, LocalAssignment, FunctionName and the Luau nodes stay assumed"]),
+                     "the trivia updaters (update_leading_trivia / update_trailing_trivia / update_trivia) are assumed interfaces in every unit but `trivia` (prelude/traits.rs); unit trivia verifies the real implementations for TokenReference, the blanket impls, Punctuated, ContainedSpan, BinOp, UnOp, Expression, Var, VarExpression, FunctionCall, TableConstructor, Suffix, Call, Index, MethodCall, FunctionArgs, FunctionBody, FunctionName, Parameter, If, Assignment, LocalAssignment, Attribute, Return, Stmt, LastStmt "
+                     "and proves the assumed clauses for TokenReference / ContainedSpan / BinOp from them; the implementations for Prefix (a cycle through trait implementations has to be cut somewhere) and the Luau nodes stay assumed, and so does that a change of first / last trivia keeps the identity of a leaf (definitional axioms)"]),
     "C01": dict(units=["expr", "block", "lib", "tok", "table", "collapse", "bodies", "trivia", "luau"], bounded=[dict(kind="lib", witnesses="C01_BOUNDED"), dict(kind="corpus", kinds=["parse"]), dict(kind="inject", kinds=["parse"]), dict(kind="range", kinds=["parse"])],
         explanation="(unit collapse: a function body / if guard is only written on one line — with `end` behind its statement — when no comment is found in it.) necessary conditions, each a mechanism the property names: (1) `- -x` guard on both layout paths, right-open expressions never freed under an operator (C05 contract); "
                     "(2) a long-bracket string is separated from `[` (format_index, format_field, is_brackets_string); (3) the statement separator is kept where the next statement starts with `(` "
